@@ -97,6 +97,27 @@ fn check_msg(lm: &LMsg, k: &Keyed, near: &[(KeySpec, HMACKey)], walk_faults: boo
     let p = ref_parse(&enc).expect("reference parses its own output");
     let macs: Vec<_> = p.tlvs.iter().filter(|t| t.ty == T_MI || t.ty == T_SHA).cloned().collect();
     // (ii) + (iv): each integrity attribute validates, whatever legal tail follows it
+    // attribute objects outlive the message: clones of the attributes of the message just encoded, put into a message with
+    // another transaction id, must carry the MAC of THAT message
+    {
+        let mut lm2 = lm.clone();
+        for b in lm2.tid.iter_mut() {
+            *b ^= 0x5A;
+        }
+        let msg2 = cu::reissue(&msg, lm2.tid);
+        let want2 = ref_encode(&lm2, Some(k.raw));
+        match cu::encode_into(&msg2, want2.len() + 16, 0) {
+            Ok(Ok((n, b))) if b[..n.min(b.len())] == want2[..] => rep.sym("reissued-with-cloned-attributes"),
+            other => {
+                rep.violate(
+                    "message-reissued-with-cloned-attributes-carries-wrong-bytes",
+                    format!("{:?}", other.map(|r| r.map(|x| x.0))),
+                    replay(),
+                );
+                return;
+            }
+        }
+    }
     // every way of building the validating decoder (builder call order, repeated calls, clones) gives the same verdict on
     // the untampered message and on one with the last MAC byte flipped (one message in 16, chosen by a hash of its bytes)
     if crate::util::hash64(&enc) % 16 == 0 {
@@ -369,9 +390,9 @@ pub fn run(ctx: &RunCtx) -> i32 {
         rep,
         Finish {
             level: "fault_enumeration",
-            rule: format!("messages with 0..=2 body attributes over the {}-entry menu (values <=64 bytes; long values as singles) x 6 legal tails containing MI and/or SHA256 x {} keys (short-term incl. non-ASCII, long-term MD5 and SHA-256); for each: wire bytes == reference (independent HMAC over the RFC input under the independently derived key), every integrity attribute accepted under the right key whatever tail follows, rejected under every key differing in one character of user / realm / password (or algorithm), and rejected after every single-bit fault in the protected prefix (except header bytes 2-3), the attribute's own header and the MAC (pairs only under the first 3 keys; quick tier: pairs walk faults under one rotating tail). Plus one DATA blob of every length 0..=300 x 3 tails (fault walks for every length in the thorough tier, <=140 in the quick tier) and the deep messages of C01 (offsets around 256..4096 / 32768, long runs, repeats, rotations, quads) x 2 tails under a short-term and a long-term SHA-256 key, without fault walks; the offset family (MI / SHA256 / MI+SHA256+FINGERPRINT behind a filler at every 4-aligned body offset 0..=4200 (thorough 16,400), around multiples of 4096 (1024), every offset 65,300 up to the 65,532-byte maximum). For one walked message in 8 the MAC is also replaced by every value of a pattern family that careless comparisons accept (the same mask on two bytes a multiple of four apart x 3 masks, +1/-1 on neighbouring bytes, swapped / rotated / reversed words, inverted, right only in a prefix or suffix, all zero). Decoy values: a DATA blob whose last 48 bytes imitate the headers of MESSAGE-INTEGRITY / MESSAGE-INTEGRITY-SHA256 / FINGERPRINT at every word, singly and in every pair, x 6 tails. For one message in 16 the untampered and a tampered copy are also decoded by every construction route of the four validating decoder configurations (builder calls in every order, a repeated call, clones of decoder and context) and must get the canonical decoder's verdict. Acceptance = validating decoder returns the attribute OR get_input_text+validate says true. Non-trivial = message that passed all of these", menu_v.len(), keys.len()),
+            rule: format!("messages with 0..=2 body attributes over the {}-entry menu (values <=64 bytes; long values as singles) x 6 legal tails containing MI and/or SHA256 x {} keys (short-term incl. non-ASCII, long-term MD5 and SHA-256); for each: wire bytes == reference (independent HMAC over the RFC input under the independently derived key), every integrity attribute accepted under the right key whatever tail follows, rejected under every key differing in one character of user / realm / password (or algorithm), and rejected after every single-bit fault in the protected prefix (except header bytes 2-3), the attribute's own header and the MAC (pairs only under the first 3 keys; quick tier: pairs walk faults under one rotating tail). Plus one DATA blob of every length 0..=300 x 3 tails (fault walks for every length in the thorough tier, <=140 in the quick tier) and the deep messages of C01 (offsets around 256..4096 / 32768, long runs, repeats, rotations, quads) x 2 tails under a short-term and a long-term SHA-256 key, without fault walks; the offset family (MI / SHA256 / MI+SHA256+FINGERPRINT behind a filler at every 4-aligned body offset 0..=4200 (thorough 16,400), around multiples of 4096 (1024), every offset 65,300 up to the 65,532-byte maximum). For one walked message in 8 the MAC is also replaced by every value of a pattern family that careless comparisons accept (the same mask on two bytes a multiple of four apart x 3 masks, +1/-1 on neighbouring bytes, swapped / rotated / reversed words, inverted, right only in a prefix or suffix, all zero). Decoy values: a DATA blob whose last 48 bytes imitate the headers of MESSAGE-INTEGRITY / MESSAGE-INTEGRITY-SHA256 / FINGERPRINT at every word, singly and in every pair, x 6 tails. For one message in 16 the untampered and a tampered copy are also decoded by every construction route of the four validating decoder configurations (builder calls in every order, a repeated call, clones of decoder and context) and must get the canonical decoder's verdict. Every message is also re-issued: clones of the attributes of the encoded message in a message with another transaction id must encode to that message's reference bytes. Acceptance = validating decoder returns the attribute OR get_input_text+validate says true. Non-trivial = message that passed all of these", menu_v.len(), keys.len()),
             assumptions: vec!["R-strings table for the non-ASCII passwords".into()],
-            required_symbols: vec!["key-derivation", "accepted-untampered", "rejected-wrong-key", "fault-walks", "long-values", "prefix-length-sweep", "deep-messages", "offset-family", "decoder-construction-routes", "decoy-values", "mac-patterns"],
+            required_symbols: vec!["key-derivation", "accepted-untampered", "rejected-wrong-key", "fault-walks", "long-values", "prefix-length-sweep", "deep-messages", "offset-family", "decoder-construction-routes", "decoy-values", "mac-patterns", "reissued-with-cloned-attributes"],
             min_outcomes: 2,
             exhaustive: true,
             bounds: json!({"menu": menu_v.len(), "keys": keys.len(), "tails": 6}),
